@@ -118,6 +118,9 @@ func (Engine) Run(c *choice.Src, o engine.Opt) (out engine.Out) {
 	bh[0] &^= 0x80
 	neg := append([]byte(nil), pool[1].Bytes...)
 	neg[0] ^= 0x20
+	if ts, err := curve.G1PlusTorsion(pool[0].Bytes, rnd.Intn(len(curve.SmallPrimesE1)), 1); err == nil {
+		pool = append(pool, thrmodel.Share{Bytes: ts, Kind: "torsion", TrueOf: -1})
+	}
 	pool = append(pool,
 		thrmodel.Share{Bytes: curve.G1NonSubgroup(rnd), Kind: "notG1", TrueOf: -1},
 		thrmodel.Share{Bytes: bh, Kind: "badheader", TrueOf: -1},
@@ -253,6 +256,8 @@ func (Engine) Run(c *choice.Src, o engine.Opt) (out engine.Out) {
 	panics := sim.Run()
 	out.SimTime["scheduler_steps"] += sim.Steps
 	out.SimTime["context_switches"] += sim.Switches
+	out.SimTime["go_objects_handed_to_C_and_reported_to_race_detector"] += sim.CArgs
+	out.SimTime["go_objects_modified_by_C"] += sim.CWrites
 	out.Probes["lock_contended"] += sim.Contended
 	out.Probes["switch_inside_critical_section"] += sim.SwitchInCrit
 	if sim.Switches > ntasks {
